@@ -40,6 +40,7 @@ func c18(tier string) []*explore.Scenario {
 	}
 	out = append(out, c18WriteFault(bound), c18StatefulKey(bound), c18CancelWhileWriting(bound))
 	out = append(out, c18ReuseWhileOldWriteStuck("completes", bound), c18ReuseWhileOldWriteStuck("never", bound))
+	out = append(out, c18DoubleCancel(0, 2), c18DoubleCancel(3, 2))
 	seqLen := 5
 	if tier == "thorough" {
 		seqLen = 7
@@ -844,6 +845,69 @@ func c18ReuseWhileOldWriteStuck(oldWrite string, bound int) *explore.Scenario {
 			}
 			if oldWrite == "completes" && (!wdone || werr != nil) {
 				vsched.Fail(fam+"|new-connection-cancelled", "a write on k0's new connection: done=%v err=%v", wdone, werr)
+			}
+			dm.Stop()
+			shared.A.Break()
+			shared.B.Break()
+			vsched.Quiesce()
+		},
+	}
+}
+
+// c18DoubleCancel: two Cancel calls for the same key overlap (and a third follows later),
+// with readers blocked on the logical connection: nothing panics, all calls return, the blocked
+// readers fail, and the key can be used again afterwards.
+func c18DoubleCancel(readers, bound int) *explore.Scenario {
+	fam := "C18/cancel"
+	return &explore.Scenario{
+		Name: fmt.Sprintf("C18/double-cancel/readers=%d", readers), Family: fam, Prop: "C18", Bound: bound,
+		Run: func() {
+			tap := &env.Tap{}
+			shared := env.NewPipe(tap, env.PipeOpts{Name: "shared", Cap: 4})
+			var conns []goat.RpcReadWriter
+			ctx, cancel := context.WithCancel(context.Background())
+			defer cancel()
+			dm := goat.NewDemux(ctx, shared.B, func(r *env.Rpc) string { return r.GetHeader().GetSource() }, func(rw goat.RpcReadWriter) { conns = append(conns, rw) })
+			vsched.GoNamed("demux-run", func() { dm.Run() })
+			vsched.Settle()
+			shared.A.Inject(c18Msg(2, "k0"))
+			vsched.Settle()
+			if len(conns) != 1 {
+				vsched.Fail(fam+"|harness", "k0 not announced")
+				return
+			}
+			if _, err := conns[0].Read(context.Background()); err != nil {
+				vsched.Fail(fam+"|harness", "first read: %v", err)
+				return
+			}
+			failedReads := 0
+			for i := 0; i < readers; i++ {
+				vsched.GoNamed(fmt.Sprintf("reader%d", i), func() {
+					if _, err := conns[0].Read(context.Background()); err != nil {
+						failedReads++
+					}
+				})
+			}
+			vsched.Settle()
+			vsched.Explore(true)
+			done := 0
+			for i := 0; i < 2; i++ {
+				vsched.GoNamed(fmt.Sprintf("canceller%d", i), func() { dm.Cancel("k0"); done++ })
+			}
+			vsched.Quiesce()
+			vsched.GoNamed("canceller-late", func() { dm.Cancel("k0"); done++ })
+			vsched.Quiesce()
+			vsched.Obs("cancels returned=%d readers failed=%d", done, failedReads)
+			if done != 3 {
+				vsched.Fail(fam+"|cancel-hang", "two overlapping Cancel(k0) calls and a later one: only %d of 3 returned; threads: %s", done, threadList())
+			}
+			if failedReads != readers {
+				vsched.Fail(fam+"|read-blocks", "%d of %d readers blocked on the cancelled connection did not fail", readers-failedReads, readers)
+			}
+			shared.A.Inject(c18Msg(6, "k0"))
+			vsched.Quiesce()
+			if len(conns) != 2 {
+				vsched.Fail(fam+"|reused-key-lost", "k0 used again after the cancels: %d connections announced in all", len(conns))
 			}
 			dm.Stop()
 			shared.A.Break()
